@@ -645,6 +645,25 @@ _current_context: SequentialContext | None = None
 _current_context_data: _ContextData | None = None
 
 
+class _ActiveContext:
+    # Sets the current SequentialContext for the duration of a with statement.
+    # A context manager is used (instead of separate enter/exit calls) because
+    # the compiler leaves it when the enclosed code is rejected.
+
+    @pyeval
+    def __init__(self, ctx: SequentialContext, data: _ContextData | None):
+        self._ctx = ctx
+        self._data = data
+
+    @pyeval
+    def __enter__(self):
+        SequentialContext._enter_context(self._ctx, self._data)
+
+    @pyeval
+    def __exit__(self, type, value, traceback):
+        SequentialContext._exit_context()
+
+
 class SequentialContext:
     @staticmethod
     @pyeval
@@ -864,28 +883,26 @@ class SequentialContext:
             if inspect.iscoroutinefunction(fn):
 
                 def context_fn():
-                    cpy._enter_context(cpy, data)
-                    convert_executors(
-                        data.executors_before, mode=ExecutorMode.immediate_before
-                    )
-                    cohdl.coroutine_step(fn())
-                    convert_executors(
-                        data.executors_after, mode=ExecutorMode.immediate_after
-                    )
-                    cpy._exit_context()
+                    with _ActiveContext(cpy, data):
+                        convert_executors(
+                            data.executors_before, mode=ExecutorMode.immediate_before
+                        )
+                        cohdl.coroutine_step(fn())
+                        convert_executors(
+                            data.executors_after, mode=ExecutorMode.immediate_after
+                        )
 
             else:
 
                 def context_fn():
-                    cpy._enter_context(cpy, data)
-                    convert_executors(
-                        data.executors_before, mode=ExecutorMode.immediate_before
-                    )
-                    fn()
-                    convert_executors(
-                        data.executors_after, mode=ExecutorMode.immediate_after
-                    )
-                    cpy._exit_context()
+                    with _ActiveContext(cpy, data):
+                        convert_executors(
+                            data.executors_before, mode=ExecutorMode.immediate_before
+                        )
+                        fn()
+                        convert_executors(
+                            data.executors_after, mode=ExecutorMode.immediate_after
+                        )
 
             context_fn.__name__ = fn.__name__
             return _sequential_impl(
